@@ -203,6 +203,116 @@ def spread_scenario(sid, pattern, master_range, n, rng, order="", repl=REPL):
 
 CFG = {"masters": 3, "replicas": REPL, "extraNodes": 1, "mode": "step"}
 
+# ---- interleavings of ticker() and the refresher goroutine (spec/RcTopo.tla) -------------------------------------------------
+A_, B_, C_ = (0, 5460), (5461, 10922), (10923, 16383)
+
+
+def model_desc(did):
+    """The harness form of the descriptions of spec/MCTopo.tla (same names, same content)."""
+    r1 = lambda m: node("r1", "slave", masterOf=m)
+    if did == "D0":
+        return [node("n1", "master", ranges=[A_]), node("n2", "master", ranges=[B_]), node("n3", "master", ranges=[C_]), r1("n1")], ""
+    if did == "D1":
+        return [node("n1", "master", ranges=[A_, B_]), node("n3", "master", ranges=[C_]), r1("n1")], ""
+    if did == "D2":
+        return [node("n1", "master", ranges=[A_]), node("n2", "master", ranges=[B_]), node("x1", "master", ranges=[C_]), r1("n1")], ""
+    if did == "D3":
+        return [node("n1", "master", ranges=[A_]), node("n2", "master", ranges=[B_]), node("n3", "master", ranges=[C_]), r1("n2"),
+                node("r2", "slave", masterOf="n1", loading=True)], ""
+    if did == "D4":
+        return [node("r1", "master", ranges=[A_]), node("n2", "master", ranges=[B_]), node("n3", "master", ranges=[C_])], ""
+    if did == "Dbad":
+        return model_desc("D0")[0], "err"
+    if did == "Dtwo":
+        return [node("n1", "master", ranges=[A_]), node("n2", "master", ranges=[B_])], ""
+    raise KeyError(did)
+
+
+ADOPTABLE = {"D0", "D1", "D2", "D3", "D4"}
+TSCHED_RE = __import__("re").compile(r'^<<"TSCHED", "(\w+)", (".*")>>\s*$')
+
+
+def topo_schedules(cfgname, extra=(), workers=8):
+    """Behaviours of spec/RcTopo.tla printed by TLC as (flag, schedule)."""
+    wd = common.scratch()
+    try:
+        common.copy_spec(wd)
+        rc, out = common.tlc("MCTopo.tla", cfgname, wd, workers=workers, extra=list(extra), timeout=900)
+        res, seen = [], set()
+        for ln in out.splitlines():
+            m = TSCHED_RE.match(ln)
+            if m and m.group(2) not in seen:
+                seen.add(m.group(2))
+                res.append((m.group(1), json.loads(json.loads(m.group(2)))))
+        if not res:
+            raise Inconclusive("TLC printed no schedule for %s:\n%s" % (cfgname, out[-1200:]))
+        return res
+    finally:
+        shutil.rmtree(wd, ignore_errors=True)
+
+
+def race_plan(sched):
+    plan, last_pub = [], "D0"
+    for e in sched:
+        a = e[0]
+        if a == "publish":
+            d, kind = model_desc(e[1])
+            plan.append({"a": "publish", "desc": d, "kind": kind})
+            last_pub = e[1]
+        elif a in ("deliver", "rtake"):
+            plan.append({"a": a, "desc": [], "kind": ""})
+        elif a == "r" and e[1] != "lock":
+            plan.append({"a": "r", "desc": [], "kind": ""})
+        elif a == "t" and e[1] == "idle":
+            plan.append({"a": "tstart", "desc": [], "kind": ""})
+        elif a == "t" and e[1] != "probe":
+            plan.append({"a": "t", "desc": [], "kind": ""})
+    return plan, last_pub
+
+
+def race_scenario(sid, sched, rng, final=None):
+    """D0 adopted; the schedule is forced on the two goroutines; then everything is let go and ordinary probe rounds follow:
+    the table must be that of the description the cluster has been publishing since."""
+    plan, last_pub = race_plan(sched)
+    d0, _ = model_desc("D0")
+    steps = [step([st(op="topo", desc=d0, kind=""), st(op="refresh")]),
+             step([dict(st(op="race"), plan=plan)])]
+    if final is None and last_pub not in ADOPTABLE:
+        # what an unusable reply leaves in force depends on which replies were read before it: finish with a usable one
+        pubs = [e[1] for e in sched if e[0] == "publish" and e[1] in ADOPTABLE]
+        final = pubs[-1] if pubs else "D0"
+    fdesc = model_desc(final or last_pub)[0]
+    if final is not None:
+        steps.append(step([st(op="topo", desc=fdesc, kind="")], settle=False))
+    steps.append(step([st(op="refresh")]))
+    steps += probes(fdesc, rng)
+    steps.append(step([st(op="refresh")]))
+    return {"id": sid, "role": "", "steps": steps}
+
+
+# the two interleavings TLC finds first in the design without the mutex, written out (regression scenarios)
+LOST_UPDATE = [["publish", "D1"], ["t", "idle"], ["t", "probe"], ["deliver"], ["rtake"], ["r", "lock"], ["r", "clr"], ["r", "fill"], ["r", "reps0"],
+               ["r", "reps"], ["publish", "D2"], ["t", "idle"], ["t", "probe"], ["deliver"], ["r", "flag"], ["rtake"], ["r", "lock"],
+               ["t", "idle"], ["t", "pools"], ["t", "table"], ["r", "clr"], ["r", "fill"], ["r", "reps0"], ["r", "reps"], ["r", "flag"], ["t", "clear"]]
+TORN_READ = [["publish", "D1"], ["t", "idle"], ["t", "probe"], ["deliver"], ["rtake"], ["r", "lock"], ["r", "clr"], ["r", "fill"], ["r", "reps0"],
+             ["r", "reps"], ["publish", "D2"], ["t", "idle"], ["t", "probe"], ["deliver"], ["r", "flag"], ["rtake"], ["r", "lock"], ["r", "clr"],
+             ["t", "idle"], ["t", "pools"], ["t", "table"], ["t", "clear"], ["r", "fill"], ["r", "reps0"], ["r", "reps"], ["r", "flag"]]
+
+
+def race_scenarios(tier, seed, rng):
+    q = tier == "quick"
+    scs = [race_scenario("race-lost-update", LOST_UPDATE, rng), race_scenario("race-torn-read", TORN_READ, rng)]
+    wrong = [s for f, s in topo_schedules("GEN_TopoWrong.cfg") if f == "wrong"]
+    rng.shuffle(wrong)
+    wrong.sort(key=len)
+    pick = wrong[:10] + rng.sample(wrong[10:], min(len(wrong) - 10, 14 if q else 300)) if len(wrong) > 10 else wrong
+    for k, s in enumerate(pick):
+        scs.append(race_scenario("race-wrong-%d" % k, s, rng))
+    rnd = topo_schedules("GEN_Topo.cfg", extra=["-simulate", "num=%d" % (12 if q else 200), "-depth", "70", "-seed", str(seed)], workers=1)
+    for k, (f, s) in enumerate(rnd):
+        scs.append(race_scenario("race-sim-%d" % k, s, rng))
+    return scs, {"wrong_schedules_of_unlocked_design": len(wrong), "replayed": len(scs)}
+
 
 def run_generic(pid, tier, seed):
     wd = common.scratch()
@@ -211,6 +321,7 @@ def run_generic(pid, tier, seed):
         rng = random.Random("topo/%s/%s" % (pid, seed))
         cat = catalogue()
         groups = []
+        model, generated = [], {}
         if pid in ("C14", "C04"):
             scs = []
             # every description on its own, then histories of 2-3 successive replies (with unusable ones in between)
@@ -239,6 +350,18 @@ def run_generic(pid, tier, seed):
                 scs.append(history_scenario("pair-%s+%s" % (a[0], b[0]), [a, b], rng))
                 scs.append(once_each_scenario("once-%s+%s" % (a[0], b[0]), [a, b]))
             groups.append((dict(CFG), scs, "topo", {}))
+            if pid == "C14":
+                # the pipeline as a two-process design (spec/RcTopo.tla): exhaustive check with the mutex, then the
+                # interleavings on which the design WITHOUT the mutex goes wrong forced on the real goroutines
+                for cfgname in (["MC_Topo.cfg"] if q else ["MC_Topo.cfg", "MC_Topot.cfg"]):
+                    mc = common.model_check(cfgname, module="MCTopo.tla")
+                    if not mc["ok"]:
+                        raise Inconclusive("the design model of the topology pipeline violates its properties (%s); a model violation "
+                                           "is not a verdict about the code:\n%s" % (cfgname, mc["tail"]))
+                    model.append({k: mc[k] for k in ("cfg", "states", "transitions", "secs")})
+                rscs, rinfo = race_scenarios(tier, seed, rng)
+                generated.update(rinfo)
+                groups.append((dict(CFG), rscs, "race", {}))
             if pid == "C04":
                 sub = scs[:len(cat)] if q else scs
                 groups.append((dict(CFG, disableSlave=True), sub[:12 if q else 60], "topo-noslave", {"DisableSlave": "TRUE"}))
@@ -273,7 +396,10 @@ def run_generic(pid, tier, seed):
                     viol.append(v)
                 else:
                     other[v["prop"] + ":" + v["code"]] = other.get(v["prop"] + ":" + v["code"], 0) + 1
-        cov = dict(tot, other=other, samples=samples, descriptions=len(cat),
+        if model:
+            tot["states"] += sum(m["states"] for m in model)
+            tot["transitions"] += sum(m["transitions"] for m in model)
+        cov = dict(tot, other=other, samples=samples, descriptions=len(cat), model=model, generated=generated,
                    rule="a catalogue of %d CLUSTER NODES descriptions / unusable replies, each alone and in random histories of 2-4 successive probe rounds, "
                         "with GET and SET probes at, next to and between all range boundaries after every round; distinct scenarios counted" % len(cat)
                    if pid != "C20" else "runs of 150-300 reads (alone, alternating with writes, PINGs, as MGET) against slots of one master with 2 and with 3 replicas")
@@ -380,7 +506,7 @@ def replay(pid, payload):
 def coverage_json(pid, cov):
     c = {"states": max(1, cov["states"]), "transitions": max(1, cov["transitions"]), "traces_validated_against_impl": cov["traces"],
          "samples": cov["samples"], "evaluations": cov["traces"], "distinct_nontrivial": cov["nontrivial"], "rule": cov["rule"]}
-    for k in ("events", "crashes", "unrealised", "harness_errors", "descriptions"):
+    for k in ("events", "crashes", "unrealised", "harness_errors", "descriptions", "model", "generated"):
         if k in cov:
             c[k] = cov[k]
     c["violations_of_other_properties_seen"] = cov.get("other", {})
